@@ -62,6 +62,8 @@ def judge(ctx, tla, files, label):
         ctx.cov["evaluations"] += a
         for ln, why in mism:
             ev = history_at(f, ln)
+            if len(ev) < 2 or ev[0]["d"] != 0:
+                raise core.Inconclusive("trace file %s does not start at a program boundary (line %d)" % (f, ln))
             prog = [x["c"] for x in ev[1:]]
             init = [{"k": o["k"], "v": o["v"]} for o in ev[0]["heap"]]
             ctx.report(sig(ev, why), "%s: after %s the real heap is %s (result %s): violates the %s clause of StreamHeap!Judge; heap before: %s"
